@@ -130,10 +130,76 @@ def match(pat, act, path="$"):
     return None if pat == act else "%s: expected %r, got %r" % (path, pat, act)
 
 
+def wild(v):
+    return v is ANYSTR or v is ANYVAL or isinstance(v, (Maybe, Choice))
+
+
+def yaml_scalar(v):
+    """Literal scalars of a workflow file reach the engine as strings (its YAML reader knows no other scalar type)."""
+    if isinstance(v, bool):
+        return "true" if v else "false"
+    if isinstance(v, (int, float)):
+        return repr(v) if isinstance(v, float) else str(v)
+    return v
+
+
+def _conv(v, typ):
+    """What a schema-driven plugin makes of a received scalar (string forms are converted)."""
+    if wild(v) or v is ABSENT:
+        return v
+    try:
+        if typ == "string":
+            return v if isinstance(v, str) else (("true" if v else "false") if isinstance(v, bool) else str(v))
+        if typ == "int":
+            return int(v) if not isinstance(v, bool) else v
+        if typ == "float":
+            return float(v) if not isinstance(v, bool) else v
+        if typ == "bool":
+            if isinstance(v, str):
+                return v.lower() in ("true", "yes", "y", "on", "1", "enable", "enabled")
+            return bool(v) if isinstance(v, int) else v
+    except (TypeError, ValueError):
+        return v
+    return v
+
+
+def norm_work_input(inp):
+    """Normalisation of the scripted `work` step's input by its own schema (mirrors harness/splugin)."""
+    if not isinstance(inp, dict):
+        return inp
+    out = {}
+    for k, v in inp.items():
+        if isinstance(v, Maybe):
+            out[k] = Maybe(norm_work_input({k: v.value}).get(k))
+            continue
+        if k == "tag":
+            out[k] = _conv(v, "string")
+        elif k == "n":
+            out[k] = _conv(v, "int")
+        elif k == "f":
+            out[k] = _conv(v, "float")
+        elif k == "b":
+            out[k] = _conv(v, "bool")
+        elif k == "l" and isinstance(v, list):
+            out[k] = [_conv(x, "string") for x in v]
+        elif k == "o" and isinstance(v, dict):
+            o = dict(v)
+            if "s" in o:
+                o["s"] = _conv(o["s"], "string")
+            if "i" in o:
+                o["i"] = _conv(o["i"], "int")
+            out[k] = o
+        else:
+            out[k] = v
+    return out
+
+
 def success_data(src, inp):
-    out = {"tag": "%s(%s)" % (src, inp.get("tag"))}
+    out = {"tag": ANYSTR if wild(inp.get("tag")) else "%s(%s)" % (src, inp.get("tag"))}
     if isinstance(inp.get("n"), int) and not isinstance(inp.get("n"), bool):
         out["n"] = inp["n"] + 1
+    elif wild(inp.get("n")):
+        out["n"] = ANYVAL
     for k in ("f", "b", "l", "o", "a"):
         if k in inp and inp[k] is not None:
             out[k] = inp[k]
@@ -297,7 +363,7 @@ class RefSem:
             return out
         if isinstance(t, (list, tuple)):
             return [self.eval_tree(v) for v in t]
-        return t
+        return yaml_scalar(t)
 
     def avail(self, t):
         try:
@@ -403,7 +469,7 @@ class RefSem:
             st.why = "start failed"
             return st
         st.executed = True
-        st.exec_input = sv.get("input")
+        st.exec_input = norm_work_input(sv.get("input"))
         st.out[("starting", "started")] = (AVAIL, {})
         # 4. outcome
         es = dict(sc.get("exec") or {})
@@ -428,7 +494,7 @@ class RefSem:
         elif outcome == "error":
             st.out[("outputs", "error")] = (AVAIL, {"reason": es.get("msg") or ANYSTR})
         elif outcome == "alt":
-            st.out[("outputs", "alt")] = (AVAIL, {"tag": "%s(%s)" % (s.src, concrete.get("tag"))})
+            st.out[("outputs", "alt")] = (AVAIL, {"tag": ANYSTR if wild(concrete.get("tag")) else "%s(%s)" % (s.src, concrete.get("tag"))})
         elif outcome in ("crash", "serverfatal", "drop"):
             st.out[("crashed", "error")] = (AVAIL, {"output": ANYSTR})
         elif outcome == "hang":
